@@ -604,10 +604,13 @@ pub struct GenCfg {
     /// references to typedefs (only to previously defined or any defined: resolved after generation)
     pub typerefs: bool,
     pub comments: bool,
+    /// typedefs may reference by value only typedefs defined earlier (finitely sized types);
+    /// any typedef may be referenced below an array or map
+    pub finite: bool,
 }
 impl GenCfg {
     pub fn parser() -> GenCfg {
-        GenCfg { max_depth: 3, max_members: 7, max_fields: 4, keyword_fields: true, keyword_names: true, raw_forbidden: true, typerefs: true, comments: true }
+        GenCfg { max_depth: 3, max_members: 7, max_fields: 4, keyword_fields: true, keyword_names: true, raw_forbidden: true, typerefs: true, comments: true, finite: false }
     }
 }
 
@@ -630,6 +633,12 @@ pub fn gen_field_name(rng: &mut Rng, cfg: &GenCfg, used: &mut Vec<String>) -> St
 }
 
 pub fn gen_type(rng: &mut Rng, cfg: &GenCfg, depth: usize, typenames: &[String]) -> Ty {
+    gen_type2(rng, cfg, depth, typenames, typenames)
+}
+
+/// `byval`: typedef names usable by value here; `indirect`: names usable below [] / [string]
+pub fn gen_type2(rng: &mut Rng, cfg: &GenCfg, depth: usize, byval: &[String], indirect: &[String]) -> Ty {
+    let typenames = byval;
     let leaf = depth == 0;
     match rng.below(if leaf { 7 } else { 13 }) {
         0 => Ty::Bool,
@@ -644,17 +653,17 @@ pub fn gen_type(rng: &mut Rng, cfg: &GenCfg, depth: usize, typenames: &[String])
                 Ty::Str
             }
         }
-        7 => Ty::Array(Box::new(gen_type(rng, cfg, depth - 1, typenames))),
-        8 => Ty::Dict(Box::new(gen_type(rng, cfg, depth - 1, typenames))),
+        7 => Ty::Array(Box::new(gen_type2(rng, cfg, depth - 1, indirect, indirect))),
+        8 => Ty::Dict(Box::new(gen_type2(rng, cfg, depth - 1, indirect, indirect))),
         9 => {
             // `?` may not wrap another `?`
-            let mut inner = gen_type(rng, cfg, depth - 1, typenames);
+            let mut inner = gen_type2(rng, cfg, depth - 1, byval, indirect);
             if let Ty::Opt(i) = inner {
                 inner = *i;
             }
             Ty::Opt(Box::new(inner))
         }
-        10 | 11 => gen_struct(rng, cfg, depth - 1, typenames),
+        10 | 11 => gen_struct2(rng, cfg, depth - 1, byval, indirect),
         _ => {
             let n = rng.range(1, 4);
             let mut used = Vec::new();
@@ -664,9 +673,12 @@ pub fn gen_type(rng: &mut Rng, cfg: &GenCfg, depth: usize, typenames: &[String])
 }
 
 pub fn gen_struct(rng: &mut Rng, cfg: &GenCfg, depth: usize, typenames: &[String]) -> Ty {
+    gen_struct2(rng, cfg, depth, typenames, typenames)
+}
+pub fn gen_struct2(rng: &mut Rng, cfg: &GenCfg, depth: usize, byval: &[String], indirect: &[String]) -> Ty {
     let n = rng.below(cfg.max_fields + 1);
     let mut used = Vec::new();
-    Ty::Struct((0..n).map(|_| (gen_field_name(rng, cfg, &mut used), gen_type(rng, cfg, depth, typenames))).collect())
+    Ty::Struct((0..n).map(|_| (gen_field_name(rng, cfg, &mut used), gen_type2(rng, cfg, depth, byval, indirect))).collect())
 }
 
 pub fn gen_comment(rng: &mut Rng) -> String {
@@ -704,6 +716,9 @@ pub fn gen_idl(rng: &mut Rng, cfg: &GenCfg) -> Idl {
                     let cnt = rng.range(1, 4);
                     let mut used = Vec::new();
                     Ty::Enum((0..cnt).map(|_| gen_field_name(rng, cfg, &mut used)).collect())
+                } else if cfg.finite {
+                    let me = typenames.iter().position(|t| t == n).unwrap_or(0);
+                    gen_struct2(rng, cfg, cfg.max_depth, &typenames[..me], &typenames)
                 } else {
                     gen_struct(rng, cfg, cfg.max_depth, &typenames)
                 };
